@@ -165,6 +165,31 @@ def check_case(case, ctx):
                           f"{results['a==b']}", sub)
         elif st == "ok" and bool(req) != expected:
             ctx.violation("C17/ranking-equality-wrong", f"Ranking {ra} == {rb} returned {req}, expected {expected}", sub)
+    # history: after having been compared, A is mutated in place and compared again (to a fresh dataset holding exactly
+    # its new rankings: expected equal; to a fresh copy of its former content: expected by the reference)
+    mut = random.Random(case["seed"]).choice(["remove_empty", "remove_element", "none"])
+    before_raw = libx.raw_dataset(da)
+    did = False
+    if mut == "remove_empty" and any(len(r) == 0 for r in before_raw) and any(len(r) for r in before_raw):
+        did = call(da.remove_empty_rankings)[0] == "ok"
+    elif mut == "remove_element" and len(ref.universe(before_raw)) >= 2:
+        victim = ref.universe(before_raw)[0]
+        did = call(da.remove_elements, {ck.Element(victim)})[0] == "ok"
+    if did:
+        after_raw = libx.raw_dataset(da)
+        ctx.count("compared_again_after_in_place_mutation")
+        fresh_now = libx.mk_dataset(after_raw)
+        fresh_old = libx.mk_dataset(before_raw)
+        for label, other, raw_other in (("fresh copy of its current content", fresh_now, after_raw),
+                                        ("fresh copy of its former content", fresh_old, before_raw)):
+            want = ref.dataset_multiset(after_raw) == ref.dataset_multiset(raw_other)
+            for side, fn in (("a==x", lambda o=other: da == o), ("x==a", lambda o=other: o == da)):
+                stq, got = call(fn)
+                if stq == "ok" and bool(got) != want:
+                    ctx.violation("C17/stale-answer-after-in-place-mutation", f"after {mut} on a dataset that had already "
+                                  f"been compared, {side} with a {label} returned {got}, expected {want}",
+                                  {**sub, "mutation": mut, "after": after_raw}, observed=got, expected=want)
+                    break
     if expected and text_differs:
         ctx.count("equal_text_differs")
         ctx.nontrivial(sub)
@@ -186,7 +211,8 @@ def reach(counters, tier, info):
                             ("near misses: one element moved", "near_miss:move", 100 * k),
                             ("near misses: names with a comma", "near_miss:comma", 100 * k),
                             ("near misses: names with a space", "near_miss:space", 100 * k),
-                            ("single-ranking pairs (agreement with Ranking equality)", "single_ranking_pairs", 300 * k)]:
+                            ("single-ranking pairs (agreement with Ranking equality)", "single_ranking_pairs", 300 * k),
+                            ("datasets compared again after an in-place mutation", "compared_again_after_in_place_mutation", 600 * k)]:
         v = counters.get(key, 0)
         out.append({"name": name, "observed": v, "required": need, "ok": v >= need})
     return out
